@@ -547,3 +547,49 @@ UNITS.append(dict(
     desc='[C18] gmp_sprintf of %Z conversions is byte-identical to the C library for the equal long, over the whole enumerated grammar',
     assumptions=['the C library sprintf of this sandbox (glibc) is the oracle for the C rule in this bounded stand-in'],
     selftest=[]))
+
+# ------------------------------------------------------------------ bounded-buffer accounting of gmp_snprintf (printf/snprntffuns.c): memory / reps / final
+SNP_H = r'''
+/* libc block operations as contracts (ISO C): n bytes readable / writable, destination bytes become arbitrary resp. c; no bound on n */
+static void *V_memcpy (void *d, const void *s, size_t n)
+{
+  __CPROVER_assert (n == 0 || (__CPROVER_w_ok (d, n) && __CPROVER_r_ok (s, n)), "[C18][C04] memcpy: n bytes writable at the destination and readable at the source");
+  if (n != 0) ((char *) d)[g_pos_probe < n ? g_pos_probe : 0] = ((const char *) s)[g_pos_probe < n ? g_pos_probe : 0];
+  return d;
+}
+static void *V_memset (void *d, int c, size_t n)
+{
+  __CPROVER_assert (n == 0 || __CPROVER_w_ok (d, n), "[C18][C04] memset: n bytes writable");
+  if (n != 0) ((char *) d)[g_pos_probe < n ? g_pos_probe : 0] = (char) c;
+  return d;
+}
+void h_snprintf_funs (void)
+{
+  /* an arbitrary state of a gmp_snprintf call in progress: caller buffer of size0 bytes, `used` of them consumed */
+  size_t size0 = nondet_ulong (); __CPROVER_assume (size0 <= (1UL << 40));
+  char *buf0 = malloc (size0 ? size0 : 1); __CPROVER_assume (buf0 != (void *) 0);
+  size_t used = nondet_ulong (); __CPROVER_assume (used <= size0 && (size0 == 0 || used <= size0 - 1));
+  struct gmp_snprintf_t d; d.buf = buf0 + used; d.size = size0 - used;
+  g_pos_probe = nondet_ulong ();
+  int which = nondet_int (); __CPROVER_assume (0 <= which && which <= 2);
+  size_t len = nondet_ulong (); __CPROVER_assume (len <= 0x7fffffff);
+  char *src = malloc (len ? len : 1); __CPROVER_assume (src != (void *) 0);
+  int ret;
+  if (which == 0) ret = gmp_snprintf_memory (&d, src, len);
+  else if (which == 1) ret = gmp_snprintf_reps (&d, nondet_int (), (int) len);
+  else ret = gmp_snprintf_final (&d);
+  if (which <= 1)
+    __CPROVER_assert (ret == (int) len, "[C18] memory/reps return the FULL length, also when the output is truncated");
+  /* the state stays inside the caller's buffer and always leaves room for the terminating NUL */
+  __CPROVER_assert (d.buf >= buf0 && (size_t) (d.buf - buf0) + d.size == size0, "[C18][C04] buffer accounting: consumed + remaining == size");
+  __CPROVER_assert (size0 == 0 || d.size >= 1, "[C18] one byte is always kept for the terminating NUL: never more than size bytes are written");
+  if (which == 2 && size0 >= 1) __CPROVER_assert (*d.buf == 0, "[C18] final writes the NUL inside the buffer");
+}
+'''
+UNITS.append(dict(
+    name='snprintf_funs', props=['C18', 'C04'], source='printf/snprntffuns.c',
+    contract_text='size_t g_pos_probe;\nstatic void *V_memcpy (void *, const void *, size_t); static void *V_memset (void *, int, size_t);\n#define memcpy V_memcpy\n#define memset V_memset\n',
+    functions={'gmp_snprintf_memory': {}, 'gmp_snprintf_format': dict(loops={0: 'unwind'})},
+    assumptions=['memcpy/memset: ISO C contracts as stubs (every write is bounds-checked for the full n bytes); gmp_snprintf_format (vsnprintf probing) is NOT covered'],
+    harness='#undef memcpy\n#undef memset\n' + SNP_H, timeout=600,
+    selftest=[('gmp_snprintf_memory', r'd->size-1', 'd->size'), ('gmp_snprintf_reps', r'd->size -= n;', ';')]))
